@@ -106,6 +106,7 @@ mutant("m14m", "C14", "asmjit/x86/x86instapi.cpp", "if (ASMJIT_UNLIKELY(base_id 
 mutant("m14n", "C14", "asmjit/x86/x86instapi.cpp", "            if (mode == InstDB::Mode::kX86) {\n              // 32-bit mode: Make sure that the address is either `int32_t` or `uint32_t`.\n              if (!Support::is_uint_n<32>(offset)) {", "            if (mode == InstDB::Mode::kX86) {\n              // 32-bit mode: Make sure that the address is either `int32_t` or `uint32_t`.\n              if (!Support::is_uint_n<32>(offset) && index_type != RegType::kNone) {", "x86-32 validator accepts a 64-bit absolute address without index")
 mutant("m16h", "C16", "asmjit/core/rapass.cpp", "  for (BaseNode* node = func; node && node != _stop; node = node->next()) {\n    node->reset_pass_data();\n  }\n", "", "revert fix: label nodes keep the register allocator's block after the function is done")
 mutant("m16i", "C16", "asmjit/core/builder.cpp", "  (*out)->reset_op_range(0, op_capacity);\n", "", "revert fix: new_inst_node() leaves the operands uninitialized")
+mutant("m18i", "C18", "asmjit/support/arena.cpp", "  size = Support::min<size_t>(size_t(result), ASMJIT_ARRAY_SIZE(buf) - 2);", "  size = size_t(result);", "revert fix: sformat() uses the untruncated length")
 
 def run(cmd, env=None, timeout=3600):
     e = dict(os.environ); e.update(env or {})
